@@ -71,9 +71,9 @@ func c02Gen(rng *rand.Rand, tier string, w *bufio.Writer) {
 	// a named file whose creation is interrupted)
 	emit([]string{"case 0 corpus torn-second-block", "chron cfg 300 0.3", "live 1000000",
 		"w " + fmt.Sprintf("p:1:1:%d", c02Pad(1)), "sync", "w " + fmt.Sprintf("p:2:2:%d", c02Pad(2)), "sync"})
-	emit([]string{"case 1 corpus named-create", "chron name swamp", "live 1000000",
+	emit([]string{"case 1 corpus named-create", "chron name swmp", "live 1000000",
 		"w " + fmt.Sprintf("p:1:1:%d,p:2:2:%d", c02Pad(1), c02Pad(2)), "sync", "w d:1", "close"})
-	n := 22
+	n := 40
 	if tier == "thorough" {
 		n = 200
 	}
